@@ -1228,29 +1228,32 @@ def c_case(r, variants):
 # the check
 
 
-class _Timeout(Exception):
-    pass
+class _Timeout(BaseException):
+    """Not an Exception: the `except Exception` handlers that classify what the implementation raises must
+    never see the guard's own interrupt (it would be reported as a crash of the implementation)."""
 
 
 def with_alarm(seconds, f):
+    """Run f under a guard against non-termination.  The budget is CPU time of this process
+    (ITIMER_VIRTUAL), not wall-clock time: a loaded machine must not turn a slow run into an alarm."""
     import signal
 
     def h(sig, frm):
         raise _Timeout()
-    old = signal.signal(signal.SIGALRM, h)
-    signal.setitimer(signal.ITIMER_REAL, seconds)
+    old = signal.signal(signal.SIGVTALRM, h)
+    signal.setitimer(signal.ITIMER_VIRTUAL, seconds)
     try:
         return f()
     finally:
-        signal.setitimer(signal.ITIMER_REAL, 0)
-        signal.signal(signal.SIGALRM, old)
+        signal.setitimer(signal.ITIMER_VIRTUAL, 0)
+        signal.signal(signal.SIGVTALRM, old)
 
 
 def examine(spec, rng=None, part=None):
     """Run the implementation and the direct oracle on a spec (one step of a history; `part` = the part left
     by the previous step).  Returns (run | None, bad list, skip reason)."""
     try:
-        r = with_alarm(8, lambda: run_impl(spec, rng=rng, part=part))
+        r = with_alarm(20, lambda: run_impl(spec, rng=rng, part=part))
     except _Timeout:
         return None, [], "timeout"
     for pol in POLICIES:
@@ -1269,7 +1272,7 @@ def examine_history(spec, rng=None):
     r, bad, skip = examine(spec, rng=rng)
     if r is not None and spec.get("score_with"):
         try:
-            sb = with_alarm(8, lambda: score_level(spec, spec["score_with"]))
+            sb = with_alarm(20, lambda: score_level(spec, spec["score_with"]))
         except _Timeout:
             sb = []
         bad = bad + [(k, m, {"call": "Score"}) for k, m in sb]
